@@ -51,6 +51,46 @@ func VH16d_receivers() {
 			return
 		}
 	}
+	if (proto == "req" || proto == "surveyor") && verif.Choice("replay", 2) == 1 {
+		// a complete exchange first; afterwards the peer replays the answered id
+		good.Deliver(append(append([]byte{}, id...), 'o', 'k'))
+		var m0 *mangos.Message
+		var e0 error
+		g0 := verif.Go("recv0", func() { m0, e0 = sock.RecvMsg() })
+		verif.Quiesce()
+		verif.Assert(g0.Done() && e0 == nil, lab+"/first-exchange")
+		_ = m0
+		oldID := id
+		verif.Assert(sock.Send([]byte{'q', '2'}) == nil, lab+"/second-request")
+		verif.Quiesce()
+		id = nil
+		for _, p := range []*vt.Pipe{bad, good} {
+			if len(p.Sent) > 0 && p.Sent[len(p.Sent)-1].B[0] == 'q' && len(p.Sent[len(p.Sent)-1].B) == 2 {
+				id = p.Sent[len(p.Sent)-1].H
+			}
+		}
+		if len(id) != 4 {
+			verif.Fail(lab + "/second-request-not-transmitted")
+			return
+		}
+		bad.Deliver(append(append([]byte{}, oldID...), 'o', 'l', 'd'))
+		verif.Quiesce()
+		var m1 *mangos.Message
+		var e1 error
+		g1 := verif.Go("recv1", func() { m1, e1 = sock.RecvMsg() })
+		verif.Quiesce()
+		verif.Assert(!g1.Done(), lab+"/replayed-answered-id-delivered-as-reply")
+		good.Deliver(append(append([]byte{}, id...), 'S', 'S'))
+		verif.Quiesce()
+		verif.Assert(g1.Done() && e1 == nil, lab+"/current-reply-not-delivered-after-replay")
+		if g1.Done() && e1 == nil {
+			b := m1.Body
+			verif.Assert(len(b) == 2 && b[0] == 'S', lab+"/wrong-reply-after-replay")
+		}
+		verif.Reach("replay")
+		sock.Close()
+		return
+	}
 	n := verif.Choice("len", L+1)
 	junk := verif.Bytes("junk", n)
 	bad.Deliver(junk)
